@@ -116,6 +116,9 @@ def parse : List String → Option Cmd
   | ["open", "kvfile"] => some (.openSpec true)
   | ["open", "sqlite"] => some (.openSpec true)
   | ["open", "buffer", n] => (parseInt n).map .openBuf
+  | ["open", "buffer", n, back] =>
+    if back == "mem" || back == "leveldb" || back == "kvfile" || back == "sqlite" then (parseInt n).map .openBuf
+    else none
   | ["get", k] => (decTok k).map (fun k => .op (.get k))
   | ["del", k] => (decTok k).map (fun k => .op (.del k))
   | ["set", k, v] =>
